@@ -413,6 +413,9 @@ func (g *gen) hostileOp() *worldOp {
 	items := [][]byte{nil, {0}, {0, 0}, be(1), be(2), be(3), be(0xffffffffffffffff), append([]byte{1}, make([]byte, 8)...),
 		u.U[0], u.U[2], u.K[0], u.K[1], u.SC, u.SYS, u.Short, u.Long, u.Fung[0], u.NFTs[0], u.NFTs[1], u.Alias[0], u.Alias[2],
 		[]byte("CD"), []byte("ESDTRoleNFTCreate"), bytes.Repeat([]byte{0xff}, 101), wrapCounts[0], wrapCounts[1], wrapCounts[3]}
+	if u.rich {
+		items = append(items, u.HiTok, big64(0), big64(7), be(256), be(255), be(65536), u.SysVar, u.MetaSCs[0], u.MetaSCs[2], u.Fung[1])
+	}
 	n := c.rng.Intn(13)
 	var args [][]byte
 	for i := 0; i < n; i++ {
